@@ -114,6 +114,28 @@ def tr_overlap(ctx):
                   head=HEAD.replace("import PyGqlModel.PyPrelude", "import PyGqlModel.Ty"))}
 
 
+# ---- _string_utils.parse_block_string (C02) ----------------------------------------------------------------
+
+def tr_block_string(ctx):
+    src = SRC("_string_utils.py")
+    pat = None
+    for n in ast.parse(src).body:
+        if isinstance(n, ast.Assign) and len(n.targets) == 1 and isinstance(n.targets[0], ast.Name) and n.targets[0].id == "LINE_SEPARATOR":
+            v = n.value
+            if (isinstance(v, ast.Call) and ast.unparse(v.func) == "re.compile" and len(v.args) == 1 and not v.keywords
+                    and isinstance(v.args[0], ast.Constant)):
+                pat = v.args[0].value
+    if pat != "\\r\\n|[\\n\\r]":
+        raise Untranslatable("LINE_SEPARATOR is not re.compile(r'\\r\\n|[\\n\\r]') (Py.lineSepSplit models exactly that pattern): %r" % (pat,))
+    part = py2lean.translate_function(
+        src, "parse_block_string", "parse_block_string",
+        externals={"LINE_SEPARATOR.split": Ext("Py.lineSepSplit", TList(TEXT))},
+        # one fuel expression per `while`, evaluated at loop entry: each iteration pops one line
+        fuel=["len(lines) + 1", "len(lines) + 1"])
+    return {"PyGqlModel/Generated/TrBlockString.lean":
+            _file("src/py_gql/_string_utils.py (parse_block_string)", [part])}
+
+
 EXTRA = {
     "C01": tr_index_to_loc,
     "C10": tr_index_to_loc,
@@ -121,6 +143,7 @@ EXTRA = {
     "C05": tr_collect,
     "C19": tr_collect,
     "C06": tr_overlap,
+    "C02": tr_block_string,
 }
 
 GENERATED = {
@@ -130,4 +153,5 @@ GENERATED = {
     "C05": ["PyGqlModel/Generated/TrCollect.lean"],
     "C19": ["PyGqlModel/Generated/TrCollect.lean"],
     "C06": ["PyGqlModel/Generated/TrOverlap.lean"],
+    "C02": ["PyGqlModel/Generated/TrBlockString.lean"],
 }
